@@ -369,7 +369,54 @@ def run(ctx):
     G = _local_assigned(gi, lambda v: isinstance(v, ast.Call) and unparse(v.func) == "self.get_group_list") or "g"
     upper = any(f"index >= len({G})" in t or f"len({G}) <= index" in t for t in tests)
     lower = any(f"index < -len({G})" in t or "index < 0" in t or f"-len({G}) > index" in t or "0 > index" in t for t in tests)
-    ctx.instance("C18.typed-lookups", "get_group_by_index[two-sided bound]", upper and lower,
+    scan = False
+    if not (upper and lower):
+        # the same contract written as a scan: `pos = index if index >= 0 else <length> + index`, the item is returned where the running
+        # index of a forward enumerate over the list equals pos, and running out of items raises the documented error
+        gig = CFG(gi)
+        grd_ = reaching_defs(gig, exc=False)
+        from sa.guards import resolved as _res
+        for lp in [n for n in gig.nodes if n.kind == "for" and isinstance(n.ast, ast.For)]:
+            it, tg = lp.ast.iter, lp.ast.target
+            if not (isinstance(it, ast.Call) and unparse(it.func) == "enumerate" and len(it.args) == 1 and "get_group_list(" in unparse(_res(gi, it.args[0]))
+                    and "reversed" not in unparse(it) and isinstance(tg, ast.Tuple) and len(tg.elts) == 2 and all(isinstance(e_, ast.Name) for e_ in tg.elts)):
+                continue
+            i_n, item_n = tg.elts[0].id, tg.elts[1].id
+            rets_ = [n for n in gig.nodes if n.kind == "stmt" and isinstance(n.ast, ast.Return) and n.ast.value is not None and unparse(n.ast.value) == item_n]
+            good = bool(rets_)
+            for r_ in rets_:
+                fs_ = set()
+                for t_, lab_ in gig.guards(r_.id, exc=False):
+                    fs_ |= facts(t_, lab_ == "true")
+                eqs = [a for a, tv in fs_ if tv and re.fullmatch(rf"{i_n} == \w+|\w+ == {i_n}", a)]
+                if not eqs:
+                    good = False
+                    continue
+                pos_n = [x for x in re.split(r" == ", eqs[0]) if x != i_n][0]
+                ds = grd_[r_.id].get(pos_n, set())
+                if not ds:
+                    good = False
+                for d in ds:
+                    v = getattr(gig.nodes[d].ast, "value", None)
+                    fd = set()
+                    for t_, lab_ in gig.guards(d, exc=False):
+                        fd |= facts(t_, lab_ == "true")
+                    if isinstance(v, ast.Name) and v.id == "index" and ("index >= 0", True) in fd:
+                        continue
+                    if isinstance(v, ast.BinOp) and isinstance(v.op, ast.Add) and ("index >= 0", False) in fd:
+                        parts = [unparse(_res(gi, v.left)), unparse(_res(gi, v.right))]
+                        if "index" in parts and any(p_.startswith("len(") and "get_group_list(" in p_ for p_ in parts):
+                            continue
+                    if isinstance(v, ast.IfExp) and unparse(v.test) == "index >= 0" and unparse(v.body) == "index" and isinstance(v.orelse, ast.BinOp):
+                        parts = [unparse(_res(gi, v.orelse.left)), unparse(_res(gi, v.orelse.right))]
+                        if "index" in parts and any(p_.startswith("len(") and "get_group_list(" in p_ for p_ in parts):
+                            continue
+                    good = False
+            # leaving the loop without a match ends in the documented error
+            after = [d for d, lab in gig.succs(lp.id, exc=False) if lab == "done"]
+            ends = bool(after) and all(isinstance(gig.nodes[d].ast, ast.Raise) and "TagNotFoundError" in unparse(gig.nodes[d].ast) for d in after)
+            scan = scan or (good and ends)
+    ctx.instance("C18.typed-lookups", "get_group_by_index[two-sided bound]", (upper and lower) or scan,
                  f"get_group_by_index() checks {tests}: an out-of-range {'negative ' if upper else ''}index escapes as IndexError instead of TagNotFoundError", loc(gi))
     gt = methods["get_group_by_tag"]
     loops = [n for n in walk_no_nested(gt) if isinstance(n, ast.For)]
@@ -385,8 +432,12 @@ def run(ctx):
         else:
             src_ok = "get_group_list(" in it_txt and "reversed" not in it_txt and "sorted" not in it_txt
     leave = False
-    if len(loops) == 1 and isinstance(loops[0].target, ast.Name):
-        item = loops[0].target.id
+    tg_ = loops[0].target if len(loops) == 1 else None
+    if isinstance(tg_, ast.Tuple) and len(tg_.elts) == 2 and isinstance(tg_.elts[1], ast.Name) and isinstance(loops[0].iter, ast.Call) \
+            and unparse(loops[0].iter.func) == "enumerate":
+        tg_ = tg_.elts[1]  # `for i, item in enumerate(<list>)`: the same forward scan
+    if len(loops) == 1 and isinstance(tg_, ast.Name):
+        item = tg_.id
         for x in walk_no_nested(loops[0]):
             if isinstance(x, ast.Return) and x.value is not None and unparse(x.value) == item:
                 leave = True
@@ -450,24 +501,45 @@ def run(ctx):
                         sinks.append((n, c.args[0].id))
         ok = bool(sinks)
         why = ""
-        for sk, argn in sinks:
-            ds = rd[sk.id].get(argn, set())
-            if not ds and argn != var:
-                ok = False
-                why = f"`{argn}`"
+        def origin(name, at, depth=0):
+            """None when the value `name` holds at node `at` is the given item (or FIXContainer(<the given item>) where that is a dict), else the offending text"""
+            ds = rd[at].get(name, set())
+            if not ds:
+                return None if name == var else f"`{name}`"
+            if depth > 4:
+                return f"`{name}`"
             for d in ds:
                 dn = g.nodes[d]
-                if dn.kind == "for" and argn == var:
-                    continue  # the loop variable over the caller's list
+                if dn.kind == "for":
+                    if name == var:
+                        continue  # the loop variable over the caller's list
+                    it = dn.ast.iter
+                    if isinstance(it, (ast.List, ast.Tuple)) and all(isinstance(e_, ast.Name) for e_ in it.elts):
+                        bad_ = next((origin(e_.id, d, depth + 1) for e_ in it.elts if origin(e_.id, d, depth + 1)), None)
+                        if bad_:
+                            return bad_
+                        continue
+                    return f"`{short(dn.ast)}`"
                 val = getattr(dn.ast, "value", None)
                 fs = set()
                 for t, lab in g.guards(d, exc=False):
                     fs |= _facts(t, lab == "true")
-                conv = isinstance(val, ast.Call) and unparse(val.func) == "FIXContainer" and [unparse(a_) for a_ in val.args] + [unparse(k_.value) for k_ in val.keywords] == [var] and (f"isinstance({var}, dict)", True) in fs
-                same = isinstance(val, ast.Name) and val.id == var and argn != var
-                if not (conv or same):
-                    ok = False
-                    why = f"`{short(dn.ast)}`"
+                if isinstance(val, ast.Name):
+                    bad_ = origin(val.id, d, depth + 1)
+                    if bad_:
+                        return bad_
+                    continue
+                if isinstance(val, ast.Call) and unparse(val.func) == "FIXContainer":
+                    args_ = val.args + [k_.value for k_ in val.keywords]
+                    if len(args_) == 1 and isinstance(args_[0], ast.Name) and (f"isinstance({args_[0].id}, dict)", True) in fs and origin(args_[0].id, d, depth + 1) is None:
+                        continue
+                return f"`{short(dn.ast)}`"
+            return None
+        for sk, argn in sinks:
+            bad_ = origin(argn, sk.id)
+            if bad_:
+                ok = False
+                why = bad_
         ctx.instance("C18.stored-as-string", f"{mname}[item stored as given]", ok,
                      f"{mname} replaces the item by {why} before storing it: a container item is rebuilt through the tag-map constructor, which stringifies nested groups "
                      "(the decoded structure of groups nested two deep is lost)", loc(f))
